@@ -228,7 +228,7 @@ Proof.
   destruct (mark_vsock_closed (v_tx s5)) as [tx1 w2] eqn:Emc. cbn [stp]. split; [reflexivity|].
   eapply devs_trans; [exact H5|].
   apply (devs_plain [m] false [EvTxFlag ToMarkClosed]).
-  - cbn [drun]. unfold dview_of, add_wakes; vsimpl. cbn [dapply x_tx is_flag_tx_op tx_step]. rewrite Emc. reflexivity.
+  - cbn [drun]. unfold dview_of, add_wakes; vsimpl. cbn [dapply x_tx pend_safe_op tx_step]. rewrite Emc. reflexivity.
   - repeat constructor.
   - unfold add_wakes; vsimpl. reflexivity.
   - unfold rfin, add_wakes; vsimpl. auto.
@@ -400,7 +400,7 @@ Proof.
     destruct (wake_writer tx1) as [tx2 w] eqn:Ew. apply K.
     eapply devs_trans; [exact Ht|].
     apply (devs_plain ib false [EvTxFlag ToWakeWriter]).
-    + cbn [drun]. unfold dview_of, add_wakes; vsimpl. cbn [dapply x_tx is_flag_tx_op tx_step]. rewrite Ew. reflexivity.
+    + cbn [drun]. unfold dview_of, add_wakes; vsimpl. cbn [dapply x_tx pend_safe_op tx_step]. rewrite Ew. reflexivity.
     + repeat constructor.
     + unfold add_wakes; vsimpl. reflexivity.
     + unfold rfin, add_wakes; vsimpl. auto.
